@@ -392,4 +392,11 @@ def stepState (P : Programs) (kd : Kind) (res : Key → Res) (s : State) : Label
       | some (g', th') => some { g := g', ths := s.ths.set t th' }
   | l => step kd res s l
 
+
+/-- reachability of the machine that runs the translated programs -/
+inductive ReachableIR (P : Programs) (kd : Kind) (res : Key → Res) (s0 : State) : State → Prop
+  | init : ReachableIR P kd res s0 s0
+  | step {s s' : State} {l : Label} : ReachableIR P kd res s0 s → stepState P kd res s l = some s' →
+      ReachableIR P kd res s0 s'
+
 end Fact.IR
